@@ -446,8 +446,12 @@ def check_pair(ctx, sa, sb, tags, lean_rows):
         # S4 — parameters within the smaller tolerance => equal
         if params_within(sa, sb, mn[1], mn[0]):
             tags.append("params-within")
+            # image meshes: 'spacing within the coordinate-scaled tolerance' does not bound the generated points
+            # (that is finding F7); 'equal' is demanded only where soundness allows it, i.e. the explicit
+            # representation is equal as well — this keeps the rule valid for the pinned and for a repaired code
+            demand = sa["k"] != "I" or (eab == "T" and eba == "T")
             for v, order in ((ab, "a.equals(b)"), (ba, "b.equals(a)")):
-                if v != "T":
+                if demand and v != "T":
                     ctx.violation(dict(case, order=order), v, "T", cls=None,
                                   what="all defining parameters within tolerance but not equal")
     else:
@@ -539,7 +543,7 @@ def run(ctx):
         "symmetry of the scalar fuzzy predicate (proved for C10) enters C16_symm as the named hypothesis FuzzySymm",
     ]
     rng = ctx.rng
-    n = ctx.scale(700, 60000)
+    n = ctx.scale(700, 25000)
     check_compat_table(ctx)
     rows = []
     pairs = [directed_f7(rng), directed_f14(rng)]
